@@ -223,4 +223,19 @@ def issueCred (o : RingOps F) (inv : F → F) (k : RevKey F) (x sk γ : F) (i : 
     sigmaI := o.mul k.gDash (inv (o.add sk γi)), uI := o.mul k.u γi, gI := gI, m2 := m2,
     omega := omega }
 
+/-- the four pairing products of `Prover::_test_witness_signature` in exponent form, in source
+    order, each with the value it is compared to; `wgI` is `witness_signature.g_i`, which the wire
+    format keeps apart from `g_i` -/
+def witnessSigEqs (o : RingOps F) (k : RevKey F) (acc z wgI : F) (cr : Cred F) : List (F × F) :=
+  [ (o.add (o.mul wgI acc) (o.mul (neg o k.g) cr.omega), z),
+    (o.add (o.mul (o.add k.pk cr.gI) cr.sigmaI) (o.mul (neg o k.g) k.gDash), o.zero),
+    (o.add (o.mul cr.gI k.u) (o.mul (neg o k.g) cr.uI), o.zero),
+    (o.add (o.mul cr.sigma (o.add k.y (o.mul k.hCap cr.c)))
+           (o.mul (neg o (o.add (o.add (o.add k.h0 (o.mul k.h1 cr.m2)) (o.mul k.h2 cr.vr2)) cr.gI)) k.hCap),
+     o.zero) ]
+
+/-- `Prover::_test_witness_signature`: accepted iff every product has its prescribed value -/
+def testWitnessSignature [DecidableEq F] (o : RingOps F) (k : RevKey F) (acc z wgI : F) (cr : Cred F) : Bool :=
+  (witnessSigEqs o k acc z wgI cr).all fun p => decide (p.1 = p.2)
+
 end CL.NR
